@@ -89,8 +89,15 @@ pub fn check_record(r: &Value) -> Verdict {
     let class = r["class"].as_str().unwrap_or("?").to_string();
     let show = || format!("target {} class {}\nmap {:?}\n--- renamed source\n{}", tgt.name(), class, map, renamed);
 
+    let pipeline = r["pipeline"].as_bool().unwrap_or(false);
     let compile1 = |src: &str| -> Result<Result<String, String>, String> {
-        match compile_text(src, tgt) {
+        let result = if pipeline {
+            let files = vec![("main.rssl".to_string(), src.to_string())];
+            compile(&CompileReq { files: &files, entry: "main.rssl", defines: &[], tgt, mode: Mode::All, validate_layout: false })
+        } else {
+            compile_text(src, tgt)
+        };
+        match result {
             Err(p) => Err(p),
             Ok(Err(d)) => Ok(Err(d)),
             Ok(Ok(p)) => Ok(Ok(p.first().map(pipeline_text).unwrap_or_default())),
@@ -234,6 +241,13 @@ pub fn check_record(r: &Value) -> Verdict {
             }
             None => {}
         }
+    }
+    if pipeline {
+        // entry points take stage inputs: not executed, the structural comparison is the oracle
+        labels.push("pipeline_io".into());
+        labels.sort();
+        labels.dedup();
+        return Verdict::pass(Some(hash_of(&(renamed, tgt.name()))), labels);
     }
     match exec::check_exec_named(renamed, tgt, r["arg_seed"].as_u64().unwrap_or(1), 1, &emitted) {
         Verdict::Fail { signature, detail } => return Verdict::fail(format!("exec:{}", signature), format!("{}\n{}", show(), detail)),
@@ -564,7 +578,7 @@ fn table_program(kind: usize, word: &str) -> (String, String, Vec<(String, Strin
 
 pub fn run(ctx: &mut Ctx) {
     use proptest::prelude::*;
-    ctx.rule = "A program and a consistently renamed copy are compiled for DirectX HLSL, Vulkan HLSL or Metal. Renamings: (fresh) every identifier to a fresh plain name; (reserved) 1-3 entities onto words the target reserves, drawn from independent lists (86 C++14 keywords, 9 Metal address-space / stage keywords and the namespace name, 87 HLSL reserved words and keywords) - also exhaustively: every word x 11 entity kinds (struct, field, enum, enum value, static, static const, function, overloaded function, parameter, local, template parameter) in a fixed program; (suffix) 1-3 entities onto name_N forms that collide with the names generated for overloads and template instances; (reserved_suffix) one entity onto a reserved word and 1-2 others onto word_0 / word_1, the names the exporter generates for it; (shared) one name shared by locals / parameters of different functions or by fields of different structs. Checked: identical token streams up to identifiers with a consistent identifier map; fixed identifiers unchanged; plain names kept verbatim; no emitted user name is reserved in the target; no two entities share an emitted name unless the sharing is legal; the renamed program passes the C01/C02 differential executor. Renamings RSSL's own front end rejects are skipped and counted. Non-trivial = both programs compiled and at least one user identifier was compared; distinct = hash of (renamed source, target).".into();
+    ctx.rule = "A program and a consistently renamed copy are compiled for DirectX HLSL, Vulkan HLSL or Metal. Renamings: (fresh) every identifier to a fresh plain name; (reserved) 1-3 entities onto words the target reserves, drawn from independent lists (86 C++14 keywords, 9 Metal address-space / stage keywords and the namespace name, 87 HLSL reserved words and keywords) - also exhaustively: every word x 11 entity kinds (struct, field, enum, enum value, static, static const, function, overloaded function, parameter, local, template parameter) in a fixed program; (suffix) 1-3 entities onto name_N forms that collide with the names generated for overloads and template instances; (reserved_suffix) one entity onto a reserved word and 1-2 others onto word_0 / word_1, the names the exporter generates for it; (shared) one name shared by locals / parameters of different functions or by fields of different structs; (pipeline_io) exhaustively, every reserved word on each of the 10 interface names (output struct, its members with semantics, entry points, stage parameters) of a vertex + pixel pipeline compiled with its generated entry points. Checked: identical token streams up to identifiers with a consistent identifier map; fixed identifiers unchanged; plain names kept verbatim; no emitted user name is reserved in the target; no two entities share an emitted name unless the sharing is legal; the renamed program passes the C01/C02 differential executor. Renamings RSSL's own front end rejects are skipped and counted. Non-trivial = both programs compiled and at least one user identifier was compared; distinct = hash of (renamed source, target).".into();
     ctx.assumptions.push("reserved-word lists are limited to words every implementation of the target rejects as an identifier; names that are merely builtin functions are not required to be renamed".into());
     ctx.assumptions.push("namespaces are not generated: names shared between namespaces are not covered".into());
     if !ctx.replay_tier(&check_record) {
@@ -590,6 +604,39 @@ pub fn run(ctx: &mut Ctx) {
         json!({"base": base, "renamed": renamed, "map": map, "names": names, "grouped": grouped, "scopes": scopes, "expect_verbatim": [], "shared_ok": [], "class": format!("table_{}", TABLE_KINDS[k]), "target": tgt.name(), "arg_seed": 1})
     };
     ctx.run_enum("reserved_word_x_entity_kind", table.len() as u64, true, make, |i| check_record(&make(i)));
+    // ---- a vertex + pixel pipeline whose interface names are renamed onto reserved words: the generated entry points
+    // have to follow the renamed struct, members and parameters
+    {
+        const IO_NAMES: [&str; 10] = ["VOut", "pos", "uv", "wet", "VSMain", "PSMain", "vid", "o_vertex", "i_uv", "i_wet"];
+        const IO_SCOPES: [&str; 10] = ["global", "struct0", "struct0", "struct0", "global", "global", "function0", "function0", "function1", "function1"];
+        let io_program = |names: &[String]| -> String {
+            format!(
+                "struct {vo} {{ float4 {p} : SV_Position; float2 {u} : TEXCOORD0; float {w} : WETNESS; }};\nvoid {vs}(uint {vid} : SV_VertexID, out {vo} {ov}) {{ {ov}.{p} = float4(0, 0, 0, 1); {ov}.{u} = float2(0, 0); {ov}.{w} = 1.0; }}\nfloat4 {ps}(float2 {iu} : TEXCOORD0, float {iw} : WETNESS) : SV_Target0 {{ return float4({iu}, {iw}, 1); }}\nPipeline Draw {{ VertexShader = {vs}; PixelShader = {ps}; }}\n",
+                vo = names[0], p = names[1], u = names[2], w = names[3], vs = names[4], ps = names[5], vid = names[6], ov = names[7], iu = names[8], iw = names[9]
+            )
+        };
+        let mut io_table: Vec<(usize, &'static str, Tgt)> = Vec::new();
+        for tgt in [Tgt::Dx, Tgt::Msl] {
+            for w in reserved_for(tgt) {
+                for k in 0..IO_NAMES.len() {
+                    if TYPE_WORDS.contains(&w) && matches!(k, 0 | 4 | 5) {
+                        continue;
+                    }
+                    io_table.push((k, w, tgt));
+                }
+            }
+        }
+        let io_make = |i: u64| {
+            let (k, w, tgt) = io_table[i as usize];
+            let base_names: Vec<String> = IO_NAMES.iter().map(|s| s.to_string()).collect();
+            let mut names = base_names.clone();
+            names[k] = w.to_string();
+            let scopes: serde_json::Map<String, Value> = IO_NAMES.iter().zip(IO_SCOPES.iter()).map(|(n, s)| (n.to_string(), json!(s))).collect();
+            json!({"base": io_program(&base_names), "renamed": io_program(&names), "map": [[IO_NAMES[k], w]], "names": IO_NAMES, "grouped": [], "scopes": scopes,
+                "expect_verbatim": [], "shared_ok": [], "class": "pipeline_io", "target": tgt.name(), "arg_seed": 1, "pipeline": true})
+        };
+        ctx.run_enum("pipeline_interface_names", io_table.len() as u64, true, io_make, |i| check_record(&io_make(i)));
+    }
     // ---- fresh names for the fixed program's kinds (sanity: the table program itself renames cleanly)
     ctx.run_prop(
         "renamed_generated_programs",
